@@ -107,4 +107,18 @@ theorem recoverFile_onDirty_expected : recoverFile_onDirty = "fallthrough" := by
 
 theorem recoverFile_onOtherErr_expected : recoverFile_onOtherErr = "return err" := by rfl
 
+/-! ### the level-compaction planner (model: OG.C03.Plan) -/
+
+theorem src_mmsPlan_expected : src_mmsPlan = "{ if m.isClosed() || m.isCompMergeStopped() || atomic.LoadInt64(&files.closing) > 0 { return plans } seqMap := seqMapPool.Get().(*dictpool.Dict) seqMap.Reset() defer seqMapPool.Put(seqMap) idx := 0 for idx < files.Len() { f := files.files[idx] lv, seq := f.LevelAndSequence() if lv != level { plans = m.genCompactPlan(seqMap, minGroupFileN, name, level, files, plans) seqMap.Reset() idx++ continue } seqByte := record.Uint64ToBytesUnsafe(seq) if !seqMap.HasBytes(seqByte) { plans = m.genCompactPlan(seqMap, minGroupFileN, name, level, files, plans) if files.splitByUnloadFile(idx) { seqMap.Reset() } seqMap.SetBytes(seqByte, f) idx++ } else { i := idx + 1 for i < files.Len() { f = files.files[i] if !levelSequenceEqual(level, seq, f) { break } i++ } idx = i seqMap.Reset() } } plans = m.genCompactPlan(seqMap, minGroupFileN, name, level, files, plans) return plans }" := by rfl
+
+theorem src_genCompactPlan_expected : src_genCompactPlan = "{ if seqMap.Len() >= minGroupFileN { plan := m.genCompactGroup(seqMap, name, level) if plan != nil { plan.dropping = &files.closing plans = append(plans, plan) } seqMap.Reset() } return plans }" := by rfl
+
+theorem src_getMmsPlan_expected : src_getMmsPlan = "{ if files.hasUnloadFile() { ReloadSpecifiedFiles(m, name, files) } files.lock.RLock() defer files.lock.RUnlock() if atomic.LoadInt64(&files.closing) > 0 || files.Len() < minGroupFileN { return plans } plans = m.mmsPlan(name, files, level, minGroupFileN, plans) return plans }" := by rfl
+
+theorem src_levelSequenceEqual_expected : src_levelSequenceEqual = "{ lv, n := f.LevelAndSequence() return lv == level && seq == n }" := by rfl
+
+theorem src_compactOutputName_expected : src_compactOutputName = "_, seq := files[0].LevelAndSequence() ; fileName := NewTSSPFileName(seq, level, 0, 0, isOrder, m.lock)" := by rfl
+
+theorem levelMinGroupFiles_expected : levelMinGroupFiles = "[CompactLevels]int{8, 4, 4, 4, 4, 4, 2}" := by rfl
+
 end OG.C03.Facts
